@@ -272,6 +272,60 @@ mod shape6 {
 }
 
 // ================================================================================================
+// Two fields of the SAME type (a body that mixes up same-typed fields still type-checks)
+mod pair {
+    use super::*;
+
+    #[derive(Animate, Clone, Debug, Default, PartialEq)]
+    pub struct Pair {
+        x: f32,
+        tag: u8,
+        y: f32,
+        z: f32,
+    }
+
+    stubs! {
+        fn update_contract() {
+            ds::reset();
+            let (sx, st, sy, sz) = (any_f32(), kani::any::<u8>(), any_f32(), any_f32());
+            let (t_x, t_tag, t_y, t_z) = (script(sx), script(st), script(sy), script(sz));
+            let had = [t_x.verif_map_len() > 0, t_tag.verif_map_len() > 0, t_y.verif_map_len() > 0, t_z.verif_map_len() > 0];
+            let tl = PairTimeline { boundary_times: vec![0.5], timescale: TimeScale::new(1.0, 0.0, Repeat::None, false), t_x, t_tag, t_y, t_z };
+            let pf = script_prepare_frame();
+            let before = Pair { x: any_f32(), tag: kani::any(), y: any_f32(), z: any_f32() };
+            let mut target = before.clone();
+            tl.update(&mut target, any_f32());
+            assert!(value_at_args_were(pf, 4));
+            let on = pf.is_some();
+            assert!(target.x == if on && had[0] { sx } else { before.x });
+            assert!(target.tag == if on && had[1] { st } else { before.tag });
+            assert!(target.y == if on && had[2] { sy } else { before.y });
+            assert!(target.z == if on && had[3] { sz } else { before.z });
+        }
+    }
+
+    stubs! {
+        /// keyframe_from / setters / build / start_with keep same-typed fields apart.
+        fn wiring_contract() {
+            ds::reset();
+            let v = Pair { x: any_f32(), tag: kani::any(), y: any_f32(), z: any_f32() };
+            let PairKeyframeData { x, tag, y, z } = mina::KeyframeBuilder::build(&Pair::keyframe_from(&v, 0.5)).verif_data();
+            assert!(x == Some(v.x) && tag == Some(v.tag) && y == Some(v.y) && z == Some(v.z));
+            let (a, b, c) = (any_f32(), any_f32(), any_f32());
+            let PairKeyframeData { x, tag, y, z } = mina::KeyframeBuilder::build(&Pair::keyframe(0.5).x(a).y(b).z(c)).verif_data();
+            assert!(x == Some(a) && y == Some(b) && z == Some(c) && tag.is_none());
+            let mut tl = Pair::timeline().keyframe(Pair::keyframe_from(&v, 0.5)).build();
+            assert!(tl.t_x.verif_frame_value(1) == Some(v.x) && tl.t_y.verif_frame_value(1) == Some(v.y) && tl.t_z.verif_frame_value(1) == Some(v.z));
+            assert!(tl.t_tag.verif_frame_value(1) == Some(v.tag));
+            let w = Pair { x: any_f32(), tag: kani::any(), y: any_f32(), z: any_f32() };
+            tl.start_with(&w);
+            assert!(tl.t_x.verif_override_value() == Some(w.x) && tl.t_y.verif_override_value() == Some(w.y) && tl.t_z.verif_override_value() == Some(w.z));
+            assert!(tl.t_tag.verif_override_value() == Some(w.tag));
+        }
+    }
+}
+
+// ================================================================================================
 // Remote proxy
 mod remote {
     use super::*;
